@@ -38,6 +38,7 @@ TOLS = {"pi8": math.pi / 8, "pi6": math.pi / 6, "pi4": math.pi / 4, "pi3": math.
 K_ANTI = "gc:antipodal:nan-distance"
 K_COINC = "dir:separated:coincident-pair:first-direction-only"
 K_SQUARE = "structured-mesh:equal-length-axes:read-as-1d"
+K_ALLMASK = "dir:all-points-masked:result-shape-ignores-directions"
 
 C08_INVS = ["WellFormed", "HalfOpen", "DirWithinIso", "EarlyExitSound", "EarlyFirstSame"]
 C09_INVS = {
@@ -460,8 +461,8 @@ class Ctx:
         self.replayed = 0
         self.nontrivial = set()
         self.samples = []
-        self.hits = {K_ANTI: 0, K_COINC: 0, K_SQUARE: 0}
-        self.hit_inputs = {K_ANTI: set(), K_COINC: set(), K_SQUARE: set()}
+        self.hits = {K_ANTI: 0, K_COINC: 0, K_SQUARE: 0, K_ALLMASK: 0}
+        self.hit_inputs = {K_ANTI: set(), K_COINC: set(), K_SQUARE: set(), K_ALLMASK: set()}
         self.relations = {}
         self.boundary_inputs = 0
         self.features = {}
@@ -624,6 +625,12 @@ def _dir_check(ctx, st, what, call, full, early, v, c, est, entry, early_possibl
     if not bad:
         return
     out, inp = st["out"], st["inp"]
+    if (bad[0] == "shape" and len(inp["dirs"]) >= 2 and all(x == NAN for f in inp["flds"] for x in f)
+            and "mask=" in call and np.shape(v) == (1, len(full[0])) and not np.any(v) and not np.any(c)):
+        # every point deselected by mask=: the early return ignores the number of directions
+        _fail(ctx, K_ALLMASK, "%s: with every point deselected by mask= and %d directions the result has shape (n,) instead of (d, n)"
+              % (what, len(inp["dirs"])), "dir", st, call, _obs(v, c))
+        return
     if (early_possible and out["coinc"] and out["sep"] != "no" and len(inp["dirs"]) >= 2
             and compare(early, v, c, est) is None and compare(full[:1], v[:1], c[:1], est) is None):
         _fail(ctx, K_COINC, "%s: a coincident pair in a bin is counted for the first of the separated directions only "
@@ -829,6 +836,11 @@ def _check_rel_once(ctx, st, mode, rel, exp, call, est, kw_desc, tol=1e-12, scal
             if (out["coinc"] and out["sep"] != "no" and len(inp["dirs"]) >= 2 and compare(early, v, c, est, tol) is None
                     and compare(full[:1], v[:1], c[:1], est, tol) is None):
                 _fail(ctx, K_COINC, "relation %s: coincident pair counted for the first separated direction only" % rel,
+                      mode, st, kw_desc, _obs(v, c))
+                return
+            if (bad[0] == "shape" and len(inp["dirs"]) >= 2 and all(x == NAN for f in inp["flds"] for x in f)
+                    and "mask=" in kw_desc and np.shape(v) == (1, len(full[0])) and not np.any(v) and not np.any(c)):
+                _fail(ctx, K_ALLMASK, "relation %s: with every point deselected by mask= the result has shape (n,) instead of (d, n)" % rel,
                       mode, st, kw_desc, _obs(v, c))
                 return
     elif mode == "gc":
@@ -1379,7 +1391,7 @@ def run(pid, tier, seed, replay=None):
     jobs.sort(key=lambda j: -j["est"] * (8 if j["mode"] == "dir" else 1))
     t0 = time.time()
     totals = {"calls": 0, "replayed": 0, "boundary": 0}
-    hits = {K_ANTI: 0, K_COINC: 0, K_SQUARE: 0}
+    hits = {K_ANTI: 0, K_COINC: 0, K_SQUARE: 0, K_ALLMASK: 0}
     hit_inputs = dict(hits)
     relations = {}
     feats = {}
